@@ -37,7 +37,7 @@ def rules(model: Model, tier: str) -> List[RuleResult]:
     R6 = RuleResult(PROP, "AC6", "layout: four segments, three count slots, object parameters of both pure functions", min_instances=7)
     U = RuleResult(PROP, "C16-U", "every named parameter is read", min_instances=20)
     S = RuleResult(PROP, "C16-S", "two-phase sampler protocol of mh / mhcustom", min_instances=6)
-    N = RuleResult(PROP, "C16-N", "sample / step counts of the sampler loops", min_instances=8)
+    N = RuleResult(PROP, "C16-N", "sample / step counts of the sampler loops", min_instances=2)
     W = RuleResult(PROP, "C16-W", "weights sum to one; integral is sum f(x_i) w_i over the paired samples", min_instances=4)
     B = RuleResult(PROP, "C16-B", "backward re-uses the forward samples", min_instances=4)
 
@@ -100,8 +100,75 @@ def _arg_for(call: ast.Call, callee: FuncInfo, pname: str) -> Optional[ast.AST]:
     return None
 
 
+_MH_SCENARIOS = [
+    (2, 3, ["up", "reject", "accept", "reject", "up"]),
+    (2, 3, ["reject"] * 5),
+    (2, 3, ["accept", "accept", "up", "up", "reject"]),
+    (0, 2, ["reject", "accept"]),
+    (3, 1, ["up", "up", "reject", "accept"]),
+]
+
+
+def _sampler_semantic(model: Model, name: str, S: RuleResult) -> Optional[bool]:
+    """The whole sampler evaluated on symbolic chain states (domains/chain.py): for every scenario of accept / reject decisions the
+    returned samples must be the positions after each of the nsamples steps that follow nburnout uncollected steps, the weights
+    uniform 1/nsamples.  None: not interpretable (the structural rules decide); True/False: decided (findings recorded)."""
+    from ..domains.chain import run_sampler, Mismatch, Term, Buf, Weights, current_state
+    from ..domains.dictsem import Unsupported, Raised
+    from ..domains.kinds import module_records
+    f = model.func(MCMC, name)
+    mod = model.module(MCMC)
+    functions = {q: fi.node for q, fi in mod.functions.items() if "." not in q}
+    records = module_records(mod.tree)
+    kind = "mhcustom" if name == "mhcustom" else "mh"
+    runs = _MH_SCENARIOS if kind == "mh" else [(2, 3, None), (0, 2, None), (3, 1, None)]
+    decided = 0
+    for nb, ns, scen in runs:
+        label = "%s, nburnout=%d, nsamples=%d%s" % (name, nb, ns, (", decisions %s" % scen) if scen else "")
+        try:
+            res, sh = run_sampler(f.node, functions, records, kind, nb, ns, scen)
+        except (Unsupported, TypeError, AttributeError, KeyError, IndexError, ValueError) as e:
+            if decided:
+                raise AnalysisError("C16-S: %s is interpretable for some scenarios only (%s)" % (name, e))
+            return None
+        except (Mismatch, Raised) as e:
+            S.bad(f, f.node, "%s: %s" % (label, e), what=label)
+            decided += 1
+            continue
+        decided += 1
+        if kind == "mh":
+            nsteps = sh["noise"]
+            states = [current_state(sh, j + 1) for j in range(nb + ns)] if nsteps >= nb + ns else None
+        else:
+            nsteps = sh["steps"]
+            cur, states = sh["x0"], []
+            for _ in range(nb + ns):
+                cur = Term(("step", cur))
+                states.append(cur)
+        if nsteps != nb + ns:
+            S.bad(f, f.node, "%s: the chain makes %d steps, not nburnout + nsamples = %d" % (label, nsteps, nb + ns), what=label)
+            continue
+        want = states[nb:]
+        ok = isinstance(res, tuple) and len(res) == 2 and isinstance(res[0], list) and list(res[0]) == want
+        if not ok:
+            got = list(res[0]) if isinstance(res, tuple) and len(res) == 2 and isinstance(res[0], list) else res
+            S.bad(f, f.node, "%s: the samples must be the positions after steps %d..%d of one chain started at x0 (burn-in steps not collected, a rejected proposal "
+                  "records the current position again): expected %s, the sampler returns %s" % (label, nb + 1, nb + ns, want, got), what=label)
+            continue
+        w = res[1]
+        if not (isinstance(w, Weights) and w.n == ns and isinstance(w.value, (int, float)) and abs(w.value * ns - 1.0) < 1e-12):
+            S.bad(f, f.node, "%s: the weights must be uniform 1/nsamples over the %d samples, got %r" % (label, ns, w), what=label)
+            continue
+        S.ok(f.fq, "%s: samples = positions after steps %d..%d of one chain, uniform weights 1/%d" % (label, nb + 1, nb + ns, ns))
+    return True
+
+
 def _sampler_protocol(model: Model, S: RuleResult):
     for name, helper in (("mh", "_mh_sample"), ("mhcustom", "_mhcustom_sample")):
+        _SEMANTIC_DECIDED[name] = False
+        if _sampler_semantic(model, name, S) is not None:
+            _SEMANTIC_DECIDED[name] = True
+            continue
         f = model.func(MCMC, name)
         h = model.func(MCMC, helper)
         hp = h.params()
@@ -164,8 +231,14 @@ def _state_var(h: FuncInfo) -> Optional[str]:
     return start
 
 
+_SEMANTIC_DECIDED: Dict[str, bool] = {}
+
+
 def _counts(model: Model, N: RuleResult):
     for helper in ("_mh_sample", "_mhcustom_sample"):
+        if _SEMANTIC_DECIDED.get(helper[1:].replace("_sample", "")):
+            N.ok("%s::%s" % (MCMC, helper), "%s: one step and one stored sample per iteration, exactly `count` iterations - decided with the whole sampler on symbolic chain states (C16-S)" % helper)
+            continue
         h = model.func(MCMC, helper)
         cnt = _loop_count_param(h)
         flag = h.params()[-1]
